@@ -4,12 +4,14 @@ from mc.checks import rule_layer as rl
 
 PROPERTY = "C05"
 ASSUMPTIONS = [
+    "failures of one (reaction, direction) input under the renumbering / rewriting / graph-numbering tags are one finding (which tag fires depends on the seed-dependent base numbering)",
     "pairs: every usable corpus reaction with its own centre template, forward and backward; the X-Y + C=C synthetic family is covered by C11's pruning layer",
     "metamorphic oracle: the set of RDKit-canonical distinct reactions must be identical across template renumberings, substrate rewritings and repeated calls; component-aware results are a subset of the exhaustive ones; "
     "the fallback strategy equals the component-aware result when that is non-empty and the exhaustive result otherwise",
 ]
 RULE = {
-    "quick": "118 usable corpus reactions x {forward, backward} x 8 template renumberings (identity, shifts, reversal, centre transpositions) x substrate re-rootings and fragment orders x repeated calls x strategies all/comp/bt",
+    "quick": "every usable reaction (corpus + hand-written) x {forward, backward} x 8 template renumberings (identity, shifts, reversal, centre transpositions) x substrate re-rootings and fragment orders, substrate as graph under "
+    "other node numberings x repeated calls x strategies all/comp/bt; the same invariance with automorphism=True (4 renumberings, all rewritings); template handed over as reaction string / ITS graph / SynRule object (centre and full)",
     "thorough": "all shifts, all centre permutations, all re-rootings",
 }
 
